@@ -29,7 +29,8 @@ class Env:
   def __init__(self, ctx, funcs):
     self.ctx = ctx
     self.trig = TrigStub(ctx)
-    self.cms = []
+    from symrun.stubs import Hermetic
+    self.cms = [Hermetic(*[f.__globals__ for f in funcs])]
     if ctx.mode == "sym":
       for f in funcs:
         self.cms.append(patched(f.__globals__, cos=self.trig.cos, sin=self.trig.sin, pi=Angle(1)))
